@@ -138,8 +138,8 @@ PROPS = {
     'C12': {
         'rules': RD_PY,
         'thorough_rules': py(cs.rule_cs_dispatch, rs.rule_fl_flags) + one(rs.rule_rs_decerr),
-        'explanation': 'Decides the structural reasons why chunking cannot matter: every non-empty chunk returned by stream.read is appended to the carry-over buffer on every path; every store to the buffer is an append, the remainder of the (line, separator, rest) partition whose head is returned, or emptying after its content was returned; a CR at the very end of buffered data triggers a one-character look-ahead whose LF is merged and whose other character becomes the buffer; bytes are decoded only by an incremental strict decoder; chunk_size occurs only as the read size; non-empty remainder at EOF is a row; BOM removal on the first physical line with the flag; comment lines skipped before the record counter; quoted_rfc continuation by quote parity; newline language {CRLF, CR, LF} with CRLF first. quoted_rfc record assembly is decided by exploring every sequence of up to four abstract line reads (end of input / even / odd number of quotes; comment or not) of get_row_rfc: which lines are consumed and what is returned.',
-        'not_decided': 'equality of results over all partitions (a statement about schedules x strings).',
+        'explanation': 'Decides, on a bounded family, that chunking does not matter to the Python reader: get_row_simple, get_row_rfc and get_record (with a comment prefix) are evaluated by the abstract interpreter of DESIGN 3.6 on every text of at most 4 (thorough: 5) characters over {letter, LF, CR} / {letter, quote, LF, CR} / {letter, #, LF}, delivered 1, 2 or 3 characters per read (read(1) look-aheads honoured), and on lines longer than every integer constant in the reader; the rows / records must be the lines of the text (LF, CR, CRLF each one break; quoted_rfc grouping by quote parity; comment lines skipped), NL must count the physical lines, None must repeat at the end, and the nesting of calls must not grow with the number of reads. When the reader is outside the interpreter the older statement-level rules apply (every chunk read reaches the buffer; buffer stores are append / remainder of the partition / emptying after return; one-character look-ahead after a trailing CR) and report UNDECIDED for layouts they do not know. Further: bytes are decoded only by an incremental strict decoder; chunk_size occurs only as the read size; non-empty remainder at EOF is a row; BOM removal on the first physical line with the flag; comment lines skipped before the record counter; quoted_rfc continuation by quote parity; newline language {CRLF, CR, LF} with CRLF first. quoted_rfc record assembly is decided by exploring every sequence of up to four abstract line reads (end of input / even / odd number of quotes; comment or not) of get_row_rfc: which lines are consumed and what is returned.',
+        'not_decided': 'equality of results over all partitions of inputs beyond the bound (a statement about schedules x strings); the bounded family is exhaustive only up to its bound.',
     },
     'C13': {
         'rules': IF_ALL + one(ow.rule_ow_pandas) + py(rd.rule_rd_comment),
